@@ -64,6 +64,10 @@ def npZeros (n : Int) : Except Err (List Int) :=
 def npZerosB (n : Int) : Except Err (List Bool) :=
   if n < 0 then .error (.valueError "negative dimensions are not allowed") else .ok (List.replicate n.toNat false)
 
+/-- `np.full(n, v, dtype)` -/
+def npFull (n v : Int) : Except Err (List Int) :=
+  if n < 0 then .error (.valueError "negative dimensions are not allowed") else .ok (List.replicate n.toNat v)
+
 /-- a slice bound as Python normalises it against `len`: `None` ↦ default, negative ↦ `+ len` clamped at 0, large ↦ `len` -/
 def normBound (len : Nat) (b : Option Int) (dflt : Nat) : Nat :=
   match b with
@@ -176,6 +180,7 @@ inductive Val where
   | bool (b : Bool)
   | arr (a : List Int)
   | barr (a : List Bool)
+  | arr2 (a : List (List Int))
   | tup (vs : List Val)
   deriving Repr, Inhabited
 
@@ -190,6 +195,9 @@ def Val.asArr? : Val → Option (List Int)
   | _ => Option.none
 def Val.asBArr? : Val → Option (List Bool)
   | .barr a => some a
+  | _ => Option.none
+def Val.asArr2? : Val → Option (List (List Int))
+  | .arr2 a => some a
   | _ => Option.none
 def Val.asOptArr? : Val → Option (Option (List Int))
   | .arr a => some (some a)
